@@ -23,6 +23,7 @@
 //	                      mfs.Touch, File.Flush, File.Sync, Root.Flush, ListNames of /d, descriptor Size, Seek+CtxReadFull
 //	mvprobe W s|w         scratch tree /m: write descriptor (Sync or not) held across Mv of the file's directory; reports
 //	                      cat old path, cat new path, flushed-root old path, flushed-root new path
+//	symopen W             put a UnixFS symlink at /s (once) and try to open it for writing (File.Open refuses it)
 //	lschmod W F M         ForEachEntry of F's directory whose callback starts SetMode(M) on F in another goroutine
 package main
 
@@ -911,6 +912,41 @@ func exec(c vh.Case, o *vh.Out) {
 				}
 			}
 			o.Kind("mvprobe-" + f[2])
+		case "symopen":
+			// an entry File.Open refuses AFTER taking the descriptor lock: a UnixFS symlink put at /s; every refused open must
+			// give the lock back (a second open by another worker would otherwise wait for ever)
+			w := wIdx(1)
+			if busyW(w) || modeParked >= 0 {
+				res = "refused"
+				break
+			}
+			e.start(w, "", func() string {
+				ctx := context.Background()
+				if _, err := mfs.Lookup(e.root, "/s"); err != nil {
+					data, err := ft.SymlinkData("/d/a")
+					if err != nil {
+						return "err-symlink"
+					}
+					nd := dag.NodeWithData(data)
+					if err := e.dserv.Add(ctx, nd); err != nil {
+						return "err-add"
+					}
+					if err := mfs.PutNode(e.root, "/s", nd); err != nil {
+						return "err-put"
+					}
+				}
+				n, err := mfs.Lookup(e.root, "/s")
+				if err != nil {
+					return "err-lookup"
+				}
+				fd, err := n.(*mfs.File).Open(ctx, mfs.Flags{Write: true, Sync: true})
+				if err != nil {
+					return "open-refused"
+				}
+				fd.Close()
+				return "opened"
+			})
+			o.Kind("symopen")
 		case "lschmod":
 			// Directory.ForEachEntry of the file's directory; its callback (which runs with the directory lock held)
 			// starts SetMode on the file in another goroutine and waits until that goroutine cannot go on
